@@ -18,6 +18,8 @@ CLAIMED = {
             'update_i == rho(phi, prefix, i-h) for all values and all i>=h, with h computed independently; unit spellings and unbounded-future rejection included'),
     'C04': ('6.C04', 'per dense-time operator: time-stamps, values and the evaluation instant are symbolic; z3 shows the returned sample list is '
             'well-formed, covers the domain start and equals the dense-time semantics at every instant of the common domain'),
+    'C05': ('6.C05', 'every split of the n samples of each variable into consecutive update() batches is enumerated; for each schedule z3 shows, for all '
+            'time-stamps, values and instants, that the concatenated output is monotone and equals the offline robustness of the whole signal'),
 }
 NA = {
     'C14': 'the quantifier ranges over strings and every string is consumed by the ANTLR4 ATN interpreter, which cannot be encoded or '
